@@ -16,7 +16,7 @@ theorem tailOps_succ (k : Nat) : tailOps (k + 1) = .wait :: tailOps k := by
 
 theorem txnOps_whole (r : Req) :
     txnOps .whole r =
-      .cacquire :: .preconnect :: .acquire :: .tid :: .connect :: .send1 :: .send2 :: tailOps r.lat := rfl
+      .cacquire :: .preconnect :: .acquire :: .tid :: .connect :: .flush :: .send1 :: .send2 :: tailOps r.lat := rfl
 
 /-- only lock releases are left: the request in progress (if any) has its result -/
 def onlyReleases (ops : List Op) : Bool := ops.all (fun o => o == .release || o == .crelease)
@@ -66,6 +66,22 @@ variable {reqs : Nat → List Req}
 theorem stepOp_threads_other (scope : LockScope) (s : State) (t : Nat) (th : Thread) (ops : List Op) (op : Op)
     (u : Nat) (h : u ≠ t) : (stepOp scope s t th ops op).threads u = s.threads u := by
   cases op <;> simp only [stepOp, raiseOut] <;> (try split) <;> (try split) <;> (try split) <;> simp [upd, h]
+
+/-- the scripted world never changes -/
+theorem stepOp_connOk (scope : LockScope) (s : State) (t : Nat) (th : Thread) (ops : List Op) (op : Op) :
+    (stepOp scope s t th ops op).connOk = s.connOk := by
+  cases op <;> simp only [stepOp, raiseOut] <;> (try split) <;> (try split) <;> (try split) <;> rfl
+
+theorem step_connOk (scope : LockScope) (s : State) (t : Nat) : (step scope s t).connOk = s.connOk := by
+  unfold step
+  split
+  · split <;> rfl
+  · exact stepOp_connOk _ _ _ _ _ _
+
+theorem run_connOk (scope : LockScope) (s : State) (l : List Nat) : (runSched scope s l).connOk = s.connOk := by
+  induction l generalizing s with
+  | nil => rfl
+  | cons t l ih => exact (ih _).trans (step_connOk scope s t)
 
 theorem step_threads_other (scope : LockScope) (s : State) (t u : Nat) (h : u ≠ t) :
     (step scope s t).threads u = s.threads u := by
@@ -140,6 +156,7 @@ theorem stepOp_work (scope : LockScope) (s : State) (t : Nat) (ops : List Op) (o
   have h1 := weight_pos op
   have htail := opsWeight_tail ops
   have hfil := opsWeight_filter ops (fun o => o == .release || o == .crelease)
+  have hfil' := opsWeight_filter ops (· == .crelease)
   cases op <;> simp only [stepOp, raiseOut]
   case acquire =>
     simp only [runnable, hops] at hr
@@ -163,6 +180,13 @@ theorem stepOp_work (scope : LockScope) (s : State) (t : Nat) (ops : List Op) (o
       have : o = t := by simpa using hr
       simp [hl, this, upd, Thread.work, Op.weight]
   case release => split <;> simp [upd, Thread.work, Op.weight]
+  case «open» =>
+    split
+    · simp [upd, Thread.work, Op.weight]
+    · have h0 : opsWeight [] = 0 := rfl
+      cases scope <;> simp [upd, Thread.work, Op.weight] <;> omega
+  case iopen => split <;> simp [upd, Thread.work, Op.weight] <;> omega
+  case flush => split <;> simp [upd, Thread.work, Op.weight] <;> omega
   case connect => split <;> simp [upd, Thread.work, Op.weight, opsWeight_cons] <;> omega
   case preconnect => split <;> simp [upd, Thread.work, Op.weight, opsWeight_cons] <;> omega
   case send2 => split <;> simp [upd, Thread.work, Op.weight] <;> omega
